@@ -576,6 +576,8 @@ def rerun(inp):
     A, L, ph = inp["A"], inp["L"], inp["phases"]
     if inp.get("ctor_default"):
         net = build_network(A or [], L, ph, None, None)
+        # the tolerances are whatever the constructor of the tree under test chose
+        inp["vt"], inp["rt"] = float(net.violation_tolerance), float(net.relative_tolerance)
     else:
         net = build_network(A or [], L, ph, inp["vt"], inp["rt"])
     itf = make_interface(net)
@@ -591,6 +593,7 @@ def replay(w):
         except Exception as e:  # noqa
             return "implementation raised %s" % type(e).__name__
         return None
+    inp = dict(inp)
     impl = rerun(inp)
     return monitor(dict(input=inp, impl=impl))
 
